@@ -275,6 +275,41 @@ theorem reset_quiescent (φ : Nat) (hφ : φ < 4) (ds : List Nat) (hd : ds.lengt
           Tx12.fitDat, Tx12.fitOe, Tx12.stateData, Tx12.stateSync, Tx12.spBit, Tx12.shData, Tx12.stall, Io.line,
           Nrzi.next, Nrzi.oe]
 
+/-- a transmission job: the bytes, the idle `tx_data` values of the packet's `usb` cycles, and those of the gap after it -/
+structure Job where
+  bytes : List Nat
+  during : List Nat
+  gap : List Nat
+
+def Job.ok (j : Job) : Prop :=
+  j.bytes ≠ [] ∧ (∀ b ∈ j.bytes, b < 256) ∧ j.during.length = (encode j.bytes).length + 3
+
+/-- packet after packet: the producer offers the bytes of a job, waits `gap` further `usb` cycles, offers the next -/
+def jobsLoop (φ : Nat) : St → List Job → List Line × List (List Nat) × St
+  | s, [] => ([], [], s)
+  | s, j :: js =>
+    let r1 := loopIo φ s ⟨j.bytes⟩ j.during
+    let r2 := loopIo φ r1.st ⟨[]⟩ j.gap
+    let r := jobsLoop φ r2.st js
+    (r1.outs.map Out.line ++ r2.outs.map Out.line ++ r.1, (r1.acc ++ r2.acc) :: r.2.1, r.2.2)
+
+/-- **any number of packets**: every packet appears as `encode` of its bytes, its bytes -- and nothing else -- are
+accepted, and between the packets the pins are not driven. -/
+theorem tx_packets (φ : Nat) (hφ : φ < 4) (js : List Job) : ∀ (s : St), Quiescent φ s → (∀ j ∈ js, j.ok) →
+    (jobsLoop φ s js).1 = js.flatMap (fun j => List.replicate (lat φ) Line.z ++ waveform j.bytes ++
+      List.replicate (tailZ φ) Line.z ++ List.replicate (4 * j.gap.length) Line.z) ∧
+    (jobsLoop φ s js).2.1 = js.map Job.bytes ∧ Quiescent φ (jobsLoop φ s js).2.2 := by
+  induction js with
+  | nil => intro s hq _; exact ⟨rfl, rfl, hq⟩
+  | cons j js ih =>
+    intro s hq hj
+    obtain ⟨h1, h2, h3⟩ := hj j (by simp)
+    obtain ⟨p1, p2, p3, _⟩ := tx_packet φ hφ j.bytes h1 h2 s hq j.during h3
+    obtain ⟨g1, g2, g3, _⟩ := idle_stays_quiescent φ hφ _ p3 j.gap
+    obtain ⟨i1, i2, i3⟩ := ih _ g3 (fun x hx => hj x (by simp [hx]))
+    simp only [jobsLoop, List.flatMap_cons, List.map_cons]
+    exact ⟨by rw [p1, g1, i1], by rw [p2, g2, i2]; simp, i3⟩
+
 /-! ### non-vacuity: the hypotheses are satisfiable and the statement says what it should on a concrete packet -/
 
 example : Quiescent 0 (idleSteps 0 {} [0x55]) := reset_quiescent 0 (by decide) [0x55] rfl
@@ -287,5 +322,8 @@ example : (loopIo 0 (idleSteps 0 {} [0x55]) ⟨[0xA5]⟩ (List.replicate 22 0x3C
 /-- a packet whose last bit is the sixth 1 (STUFF_LAST_BIT), phase 2 -/
 example : ((loopIo 2 (idleSteps 2 {} [1, 2, 3]) ⟨[0xFC]⟩ (List.replicate 23 0xFF)).outs.map Out.line) =
     List.replicate (lat 2) Line.z ++ waveform [0xFC] ++ List.replicate (tailZ 2) Line.z := by decide +kernel
+
+example : Job.ok ⟨[0xC3, 0xFF, 0x00], List.replicate 39 0, [1, 2, 3]⟩ := by
+  refine ⟨by decide, by decide, by decide⟩
 
 end LunaVerif.FsTx
